@@ -113,6 +113,26 @@ fn subject_task(seed: u64, instrs: &[String]) -> TaskSpec {
         }
         vec![ISpec::L(v)]
     };
+    // a large (but legal) binding table, one subject in 32: whatever happens to it as a whole
+    // (trimming, rehashing, spilling) must not depend on the order the map hands its entries out
+    let mut prog = prog;
+    if r.chance(1, 32) {
+        let n = 250 + r.below(80) as usize;
+        for j in 0..n {
+            state.bindings.push((format!("nb{}", j), ISpec::Int(j as i32)));
+        }
+        let mut v = vec![];
+        for k in 0..(6 + r.below(10)) {
+            v.push(ISpec::Int(1000 + k as i32));
+            v.push(ISpec::N(format!("fresh{}", k)));
+            v.push(i("INTEGER.DEFINE"));
+        }
+        for _ in 0..12 {
+            v.push(ISpec::N(format!("nb{}", r.below(n as u64))));
+        }
+        v.extend(prog.drain(..));
+        prog = vec![ISpec::L(v)];
+    }
     TaskSpec {
         cfg,
         state,
@@ -673,6 +693,19 @@ pub fn cli_case(seed: u64, names: &[String], bin_path: &str) -> Option<(String, 
     } else {
         vec![ctx.tree(&mut r, b, 3)]
     };
+    // tokens that merely contain a parenthesis are names to the parser, for the front end as for the library
+    let mut prog = prog;
+    if r.chance(1, 5) {
+        let odd = ["(2", "f(x)", "a)", "((", ")(", "x(", "(INTEGER.+", "1)"];
+        let tok = ISpec::N(r.pick(&odd).to_string());
+        match prog.first_mut() {
+            Some(ISpec::L(items)) if !items.is_empty() => {
+                let at = r.below(items.len() as u64 + 1) as usize;
+                items.insert(at, tok);
+            }
+            _ => prog.push(tok),
+        }
+    }
     let text = render_program(&prog);
     // the front end binds the name BIN to its own path: the library run below does the same
     if text.len() > 4000 {
